@@ -26,7 +26,11 @@ func genCond(rng *vlib.Rand, depth int) *Cond {
 			return &Cond{Op: "or", Kids: []Cond{*genCond(rng, depth-1), *genCond(rng, depth-1)}}
 		}
 	}
-	switch rng.Intn(13) {
+	switch rng.Intn(16) {
+	case 13, 14, 15:
+		// matches: literal-only, with metacharacters, anchored and not; several match
+		// a tag (red green blue grey black) only in the middle
+		return &Cond{Op: "re", S: vlib.Pick(rng, "re", "ee", "lack", "ue", "r[e]", "e[ey]", "l[ua]", "re[de]", "ack$", "^bl", "^gr(e|a)", "r.e", "^red$", "lu", "gre", "la(c|x)k", "ey")}
 	case 8:
 		return &Cond{Op: "state", S: vlib.Pick(rng, tags...)}
 	case 9:
@@ -110,9 +114,9 @@ func genWriteOp(rng *vlib.Rand, backend string, dirs []string, nkeys int) OpSpec
 	var kind string
 	switch backend {
 	case "injected":
-		kind = pickKind(rng, []string{"push", "put", "secret", "insert", "del", "crown", "expiry", "putdel"}, []int{50, 25, 5, 8, 3, 4, 4, 1})
+		kind = pickKind(rng, []string{"push", "put", "secret", "insert", "del", "crown", "expiry", "putdel", "pushdel", "pushexp"}, []int{40, 25, 5, 8, 3, 4, 4, 1, 8, 4})
 	case "injmap":
-		kind = pickKind(rng, []string{"push", "put", "putnew", "del", "putdel", "secret", "crown", "insert", "expiry"}, []int{25, 30, 5, 12, 8, 5, 4, 6, 5})
+		kind = pickKind(rng, []string{"push", "put", "putnew", "del", "putdel", "secret", "crown", "insert", "expiry", "pushdel", "pushexp"}, []int{20, 30, 5, 12, 8, 5, 4, 6, 5, 7, 3})
 	default:
 		kind = pickKind(rng, []string{"put", "putnew", "del", "putdel", "secret", "crown", "insert", "expiry"}, []int{46, 8, 12, 8, 6, 5, 8, 7})
 	}
@@ -125,7 +129,7 @@ func genWriteOp(rng *vlib.Rand, backend string, dirs []string, nkeys int) OpSpec
 		op.Format = vlib.Pick(rng, "json", "cbor", "msgpack", "yaml", "raw", "gencode", "empty")
 	}
 	switch kind {
-	case "put", "putnew", "push", "putdel", "putwrap":
+	case "put", "putnew", "push", "putdel", "putwrap", "pushdel", "pushexp":
 		op.Score, op.Tag = genScore(rng), vlib.Pick(rng, tags...)
 		op.PreSecret = rng.Chance(8, 100)
 		op.PreCrown = rng.Chance(8, 100)
